@@ -292,6 +292,15 @@ func c17Run(r *verdict.Run, e *emu, cs c17Case, rng *rand.Rand) {
 	for _, el := range volatilePre {
 		setup = append(setup, addCmd(el, "pv"))
 	}
+	// elements that live through the whole churn of the collapse script and are removed at its very end (they are in the
+	// table at every halving, and gone when the quiet iteration runs)
+	var late []string
+	if cs.script == "collapse" {
+		late = names("lt:", cs.size/2+3)
+		for _, el := range late {
+			setup = append(setup, addCmd(el, "lv"))
+		}
+	}
 	// keys that are already dead (unlinked / expired) when the iteration starts: they linger in the table
 	var deadBefore []string
 	if cs.kind == "scan" && cs.dead != "" && cs.dead != "del" {
@@ -366,6 +375,11 @@ func c17Run(r *verdict.Run, e *emu, cs c17Case, rng *rand.Rand) {
 		for i := 0; i < 60; i++ {
 			plan = append(plan, churn)
 		}
+		var last phase
+		for _, el := range late {
+			last = append(last, delCmd(el))
+		}
+		plan = append(plan, last)
 	case "delete-all", "flush":
 		// the collection becomes completely empty in the middle of the iteration: nothing is stable, the iteration
 		// must still end
@@ -486,6 +500,71 @@ func c17Run(r *verdict.Run, e *emu, cs c17Case, rng *rand.Rand) {
 	}
 	r.Eval(1)
 	r.Count("scan_calls", int64(calls))
+	// the mutation phases that the iteration did not live to see are applied now, so that the quiet iteration below
+	// always runs on the final state of the script (all churn done, the late elements removed)
+	for ; planIdx < len(plan); planIdx++ {
+		if !batch(plan[planIdx]) {
+			return
+		}
+	}
+	// a second, quiet iteration (nothing changes any more): what it returns must exist right now, by a point query
+	{
+		cur, quiet, qcalls := "0", map[string]bool{}, 0
+		for {
+			var a []string
+			switch cs.kind {
+			case "scan":
+				a = []string{"SCAN", cur, "COUNT", "50"}
+			case "hscan":
+				a = []string{"HSCAN", coll, cur, "COUNT", "50"}
+			case "sscan":
+				a = []string{"SSCAN", coll, cur, "COUNT", "50"}
+			}
+			v, err := cn.Do(a...)
+			v = model.Down(v)
+			qcalls++
+			if err != nil || v.Kind != '*' || len(v.Elems) != 2 || qcalls > 4*maxPresent/50+200 {
+				break
+			}
+			els := v.Elems[1].Elems
+			for i := 0; i < len(els); i++ {
+				quiet[els[i].Text()] = true
+				if cs.kind == "hscan" {
+					i++
+				}
+			}
+			cur = v.Elems[0].Text()
+			if cur == "0" {
+				break
+			}
+		}
+		var names []string
+		for el := range quiet {
+			names = append(names, el)
+		}
+		sort.Strings(names)
+		var probes [][]string
+		for _, el := range names {
+			switch cs.kind {
+			case "hscan":
+				probes = append(probes, []string{"HEXISTS", coll, el})
+			case "sscan":
+				probes = append(probes, []string{"SISMEMBER", coll, el})
+			default:
+				probes = append(probes, []string{"EXISTS", el})
+			}
+		}
+		if len(probes) > 0 {
+			if vs, err := cn.Pipeline(probes); err == nil {
+				for i, v := range vs {
+					if v.Kind == ':' && v.Int == 0 {
+						r.Report("c17/absent-element-returned/"+cs.kind, fmt.Sprintf("%s: a quiet iteration after all changes had stopped returned %q, which does not exist (%s -> 0)", cs, names[i], cmdString(probes[i])), map[string]any{"case": cs.String()})
+						break
+					}
+				}
+			}
+		}
+	}
 	// oracle
 	rep := map[string]any{"case": cs.String(), "calls": calls, "cursors": cursors,
 		"case_fields": map[string]any{"kind": cs.kind, "size": cs.size, "count": cs.count, "script": cs.script, "match": cs.match, "type": cs.typ, "adverse": cs.adverse, "dead": cs.dead, "prechurn": cs.prechurn, "spread": cs.spread, "compact": cs.compact},
@@ -534,7 +613,7 @@ func c17Run(r *verdict.Run, e *emu, cs c17Case, rng *rand.Rand) {
 		}
 	}
 	known := map[string]bool{}
-	for _, l := range [][]string{stable, volatilePre, volatileNew} {
+	for _, l := range [][]string{stable, volatilePre, volatileNew, late} {
 		for _, el := range l {
 			known[el] = true
 		}
@@ -588,7 +667,7 @@ func c17Run(r *verdict.Run, e *emu, cs c17Case, rng *rand.Rand) {
 
 func checkC17(r *verdict.Run) {
 	r.Rule = "full iterations (cursor 0 -> ... -> 0, cursors fed back verbatim) of SCAN/HSCAN/SSCAN over collections of 0-3000 elements with COUNT in {1,2,7,10,100,10000}, with and without MATCH/TYPE (patterns with wildcards, with escapes only, plain literals; names that contain the metacharacters themselves), while the driver itself grows (several table doublings), shrinks (table halving), grows-shrinks-grows, churns, loses six sevenths of its elements in the middle of the iteration, or is completely emptied (key by key, or by FLUSHDB/FLUSHALL/DEL) the collection between calls (during the first calls or spread over the iteration); names random, chosen to share 10-16 low hash bits (long doubling chains) or chosen with pairwise different low bits (compact tables that really halve when elements go); keys removed by DEL, UNLINK or a passed deadline (the latter two leave dead keys in the table, some already dead when the iteration starts), on fresh tables and on tables aged by add/remove cycles. " +
-		"oracle (set arithmetic, no model of the cursor): returned >= stable elements matching the filter, nothing never-present, already dead or non-matching returned, HSCAN values were really held, termination within 4*(elements)/COUNT+64 calls and no cursor repeated after mutations stop. distinct = (command, script, size, COUNT, filter, adversarial bits)"
+		"oracle (set arithmetic, no model of the cursor): returned >= stable elements matching the filter, nothing never-present, already dead or non-matching returned, HSCAN values were really held, a second quiet iteration returns only elements that exist by a point query, termination within 4*(elements)/COUNT+64 calls and no cursor repeated after mutations stop. distinct = (command, script, size, COUNT, filter, adversarial bits)"
 	sizes := []int{0, 1, 5, 17, 100}
 	counts := []int{1, 2, 7, 10, 100, 10000}
 	if r.Tier == "thorough" {
